@@ -1148,7 +1148,7 @@ def combo_label(cb):
     names = ossl_names()
     return "c07:%s:%s:%s" % (VER_LABEL.get(cb["ver"], "anyver"),
                              names.get(cb["suite"], "anysuite") if cb["suite"] is not None else (cb.get("tag") or "anysuite"),
-                             cb["role"])
+                             cb["role"]) + ((":steered-" + cb["steer"]) if cb.get("steer") else "")
 
 
 def payload(n, seed):
@@ -1347,6 +1347,9 @@ def py_expected(cc, sc, cred):
     if not params:
         return ("fail", "noUsableSuite", None)
     return ("ok", v, params)
+
+
+RSA_MODULUS_BYTES = {"rsa": 256}      # tests/serverX509Cert.pem: 2048-bit modulus
 
 
 CLIENT_KEY = {"client_rsa": ("rsa", 0), "client_ecdsa": ("ecdsa", 23), "client_rsa2048": ("rsa", 0),
@@ -1677,6 +1680,20 @@ def run_combo(cb, lc=None, ticket_key=b"\x07" * 32):
             if outside:
                 R.violations.append((label + ":outside-tlslite-config",
                                      "negotiated parameters lie outside tlslite's own configuration: " + "; ".join(outside)))
+            # RFC 5246 7.4.7.1 / RFC 8017 7.2.1: the RSA-encrypted premaster secret is exactly as long as the
+            # modulus (OpenSSL tolerates a shorter one, other peers do not)
+            if role == "client" and o["os_suite"] in SUITE_NAME and parse_iana(SUITE_NAME[o["os_suite"]])["kx"] == "rsa" \
+                    and not (i == 1 and o["os_resumed"]) and cb["cred"] in RSA_MODULUS_BYTES:
+                try:
+                    ckes = [b for t, b in split_handshake(handshake_stream(pr.link.records("c2s"))) if t == 16]
+                    if ckes:
+                        ln = _u(ckes[0], 0, 2)
+                        if ln != len(ckes[0]) - 2 or ln != RSA_MODULUS_BYTES[cb["cred"]]:
+                            R.violations.append((label + ":rsa-ciphertext-length",
+                                                 "EncryptedPreMasterSecret is %d bytes (message body %d), modulus is %d bytes"
+                                                 % (ln, len(ckes[0]), RSA_MODULUS_BYTES[cb["cred"]])))
+                except Exception as e:   # noqa: B902
+                    R.notes.append("ClientKeyExchange not parseable: " + type(e).__name__)
             # RFC 8446 4.2.11.1: obfuscated_ticket_age = (age in ms + ticket_age_add) mod 2^32
             if offered_ticket is not None and o["client_hello"] is not None and o["client_hello"]["psk_ages"]:
                 import time as _time
